@@ -343,6 +343,12 @@ Definition cache_expire (k : kind) (id : Z) : M unit :=
   else if negb (doCache cfg) then ret tt
   else set_cch k (c_with c (assoc_remove id (c_strong c)) (assoc_remove id (c_weak c)) (c_count c) (c_offset c)).
 
+(* CacheSet.purge (used by destroySelf): forget the entry whatever the caching mode *)
+Definition cache_purge (k : kind) (id : Z) : M unit :=
+  c <- gets (fun s => cch s k) ;;
+  if negb (c_present c) then ret tt
+  else set_cch k (c_with c (assoc_remove id (c_strong c)) (assoc_remove id (c_weak c)) (c_count c) (c_offset c)).
+
 Definition cache_try_get (k : kind) (id : Z) (roots : list nat) : M (option nat) :=
   s <- gets (fun s => s) ;;
   let c := cch s k in
@@ -406,7 +412,8 @@ Definition so_setattr (o : nat) (c : nat) (v : val) : M unit :=
     upd_inst o (fun i => set_val c v (i_with_pending (i_with_dirty i true) (nassoc_set c v (i_pending i))))
   else
     db_update (i_k i) (i_id i) [(c, v)] ;;;
-    if cache_values (i_k i) then upd_inst o (set_val c v) else ret tt.
+    (* no caching into an expired instance: the next read reloads the whole row *)
+    if cache_values (i_k i) && negb (i_expired i) then upd_inst o (set_val c v) else ret tt.
 
 (* the multi-column set method *)
 Definition so_set (o : nat) (kvs : list (nat * val)) : M unit :=
@@ -419,7 +426,7 @@ Definition so_set (o : nat) (kvs : list (nat * val)) : M unit :=
                                       (match kw with [] => i_dirty i | _ => true end))
   else
     (match kw with [] => ret tt | _ => db_update (i_k i) (i_id i) (sorted_pending kw) end) ;;;
-    if cache_values (i_k i) then upd_inst o (fun i => fold_left (fun i cv => set_val (fst cv) (snd cv) i) kw i) else ret tt.
+    if cache_values (i_k i) && negb (i_expired i) then upd_inst o (fun i => fold_left (fun i cv => set_val (fst cv) (snd cv) i) kw i) else ret tt.
 
 (* syncUpdate *)
 Definition so_sync_update (o : nat) : M unit :=
@@ -490,7 +497,7 @@ Definition so_destroy (o : nat) : M unit :=
   i <- gets (fun s => get_inst s o) ;;
   db_delete (i_k i) (i_id i) ;;;
   upd_inst o (fun i => i_with_obsolete i true) ;;;
-  cache_expire (i_k i) (i_id i).
+  cache_purge (i_k i) (i_id i).
 
 (* __init__ / _create / _SO_finishCreate; kvs are the keyword arguments by column *)
 Fixpoint fill_defaults (cols : list nat) (kw : list (nat * val)) : option (list (nat * val)) :=
